@@ -630,3 +630,84 @@ M.contract('exactly_lib.processing.processors:_Parser.apply',
                               document_exceptions.FileAccessError)},
            },
            raises_only=())
+
+
+# ------------------------------------------------------------------------------ wrong symbol types
+# "wrong symbol types ... are reported as VALIDATION_ERROR, never as INTERNAL_ERROR": the checking of a reference
+# against its restrictions (direct, indirect, or-restrictions on types with and without string rendering) and the
+# fold over the symbol usages are under contract in C08, each with `raises_only()`.  Those clauses carry C18 as
+# well: this check re-proves them on the current tree.  (After the seeded change C18-s1: a KeyError for symbol
+# types without string rendering.)
+
+def _share_symbol_type_checks():
+    from contracts.common import share_contracts
+    wanted = (':_validate_reference', ':_validate_symbol_reference', ':_validate_symbol_definition',
+              ':validate_symbol_usage', ':validate_symbol_usages',
+              ':ReferenceRestrictionsOnDirectAndIndirect._check_indirect',
+              ':ReferenceRestrictionsOnDirectAndIndirect.check_indirect',
+              ':ReferenceRestrictionsOnDirectAndIndirect.is_satisfied_by',
+              ':OrReferenceRestrictions.is_satisfied_by',
+              ':ArbitraryValueWStrRenderingRestriction.is_satisfied_by', ':ValueTypeRestriction.is_satisfied_by')
+    names = share_contracts('C18', 'contracts.C08_symbols', lambda q: q.endswith(wanted))
+    assert len(set(names)) >= len(wanted) - 1, names
+
+
+M.after_load = _share_symbol_type_checks
+
+
+# ------------------------------------------------------------------------------ messages that are rendered late
+# Error messages are objects that are rendered when the outcome is reported -- outside every handler that turns a
+# mistake into a documented outcome: a message whose rendering raises is an uncaught exception.  The lazily
+# formatted ones (util.str_.str_constructor.FormatPositional / FormatMap) apply `str.format` at that time:
+#  * the format string must not be put together from run-time text (a `{` in the author's text would be read as
+#    a replacement field): a literal, or a name bound to one -- never a concatenation / f-string / call;
+#  * a literal format string of FormatPositional has exactly as many `{}` fields as arguments given.
+# (After the seeded change C18-s2: the Python error text concatenated into the format string.)
+
+@M.check('lazily-formatted-messages')
+def _lazily_formatted_messages(ctx):
+    import ast, os, string
+    from pyvc import REPO_SRC
+    root = os.path.join(REPO_SRC, 'exactly_lib')
+    sites = 0
+    for dirpath, _dirs, files in os.walk(root):
+        for fn in sorted(files):
+            if not fn.endswith('.py'):
+                continue
+            path = os.path.join(dirpath, fn)
+            rel = os.path.relpath(path, root).replace(os.sep, '/')
+            if rel == 'util/str_/str_constructor.py':
+                continue
+            src = open(path, encoding='utf-8').read()
+            if 'FormatPositional' not in src and 'FormatMap' not in src:
+                continue
+            for n in ast.walk(ast.parse(src, path)):
+                if not isinstance(n, ast.Call):
+                    continue
+                f = n.func
+                name = f.attr if isinstance(f, ast.Attribute) else (f.id if isinstance(f, ast.Name) else None)
+                if name not in ('FormatPositional', 'FormatMap') or not n.args:
+                    continue
+                sites += 1
+                fmt = n.args[0]
+                where = '%s:%d' % (rel, n.lineno)
+                ok_kind = isinstance(fmt, (ast.Constant, ast.Name, ast.Attribute)) and \
+                    (not isinstance(fmt, ast.Constant) or isinstance(fmt.value, str))
+                ctx.obligation('%s at %s: the format string is a literal or a name, not text put together at run time'
+                               % (name, where), ok_kind, 'scan', detail={'format_argument': ast.unparse(fmt)[:200]})
+                if isinstance(fmt, ast.Constant) and isinstance(fmt.value, str):
+                    try:
+                        fields = [fld for (_lit, fld, _spec, _conv) in string.Formatter().parse(fmt.value)
+                                  if fld is not None]
+                        well_formed = True
+                    except ValueError:
+                        fields, well_formed = [], False
+                    if name == 'FormatPositional' and not any(isinstance(a, ast.Starred) for a in n.args):
+                        auto = [fld for fld in fields if fld == '']
+                        ok = well_formed and len(auto) == len(fields) and len(auto) == len(n.args) - 1
+                        ctx.obligation('FormatPositional at %s: as many {} fields as arguments' % where, ok, 'scan',
+                                       detail={'fields': len(fields), 'arguments': len(n.args) - 1})
+                    else:
+                        ctx.obligation('%s at %s: the literal format string is well formed' % (name, where),
+                                       well_formed, 'scan')
+    ctx.obligation('the lazily formatted messages of the tree were found', sites >= 20, 'scan', detail={'sites': sites})
